@@ -21,6 +21,9 @@
 (*       "imap"    a sparse mapping with integer keys                      *)
 (*   entry : [k |-> key ("" in a seq), str |-> is the value a string,      *)
 (*            s |-> the string, n |-> the number]                          *)
+(*   The entries of a mapping are listed in insertion order, which is not  *)
+(*   always the ascending order of the keys (Shuffled); vectors have up to *)
+(*   MaxLen positions, and twelve (two-digit position names) in Long.      *)
 (*                                                                         *)
 (* MEANING (the property statement, sentence by sentence)                  *)
 (*  * "Scalar, empty and None namespaces behave as vectors of length one   *)
@@ -100,7 +103,9 @@ KeyOrders(n) == CASE n = 2 -> {<<2, 1>>}
                   [] OTHER -> {}
 PermCont(ns, tag, n, ss, perm) ==
   [t |-> tag, v |-> [i \in 1..n |-> Ent(ns, i, IF tag = "imap" THEN IntKeys[perm[i]] ELSE MapKeys[perm[i]], ss, 0)]]
-Shuffled(ns) == UNION {UNION {{PermCont(ns, "map", n, {}, p), PermCont(ns, "map", n, {n}, p), PermCont(ns, "imap", n, {}, p)}
+(* the fully reversed order in three kinds (numbers; a string last; integer keys), the other orders with numbers and a string *)
+Shuffled(ns) == UNION {UNION {{PermCont(ns, "map", n, {n}, p)}
+                               \cup (IF p[1] = n THEN {PermCont(ns, "map", n, {}, p), PermCont(ns, "imap", n, {}, p)} ELSE {})
                                : p \in KeyOrders(n)} : n \in 2..MaxLen}
 (* LONG VECTORS.  Twelve positions: the positional feature names have one and two digits ("10" < "2" as text).        *)
 LongLen == 12
